@@ -170,7 +170,7 @@ CANARIES = {
             "module": "mici.integrators",
             "old": "        self._step_b(state, time_step)\n        self._step_a(state, 0.5 * time_step)",
             "new": "        self._step_b(state, time_step)\n        self.system.h1_flow(state, 0.5 * time_step)",
-            "cases": ["constrained/newton/diag/inner1"], "what": "last half kick not projected onto the cotangent space",
+            "cases": ["constrained/newton/identity/inner1"], "what": "last half kick not projected onto the cotangent space",
         },
         "implicit_midpoint_two_forward_halves": {
             "module": "mici.integrators",
